@@ -238,8 +238,22 @@ func (w *world) edit() {
 		f := files[w.r.Intn(len(files))]
 		w.both(func(root string) { must(os.Remove(filepath.Join(root, f))) })
 	case k < 15 && len(files) > 0:
+		// Overwrite in place with content of a DIFFERENT size: a same-size
+		// rewrite within one timestamp granule of the scan is invisible to
+		// the scan cache (type, mtime, size, file ID), on local endpoints
+		// too, and would make the two mirrored roots diverge by timing alone.
 		f := files[w.r.Intn(len(files))]
+		var size int64 = -1
+		if fi, err := os.Stat(filepath.Join(w.rootL, f)); err == nil {
+			size = fi.Size()
+		}
 		c := w.pool[w.r.Intn(len(w.pool))]
+		for i := 0; int64(len(c)) == size && i < len(w.pool); i++ {
+			c = w.pool[i]
+		}
+		if int64(len(c)) == size {
+			c = append(append([]byte{}, c...), 'x')
+		}
 		w.both(func(root string) { must(os.WriteFile(filepath.Join(root, f), c, 0o644)) })
 	case k < 16 && len(files) > 0:
 		f := files[w.r.Intn(len(files))]
